@@ -71,7 +71,7 @@ def _probes(items):
     return out
 
 
-FAIL_STEPS = ['config', 'bind', 'reject', 'uploads-failed', 'disconnect-before-reply', 'disconnect-during-wait']
+FAIL_STEPS = ['config', 'bind', 'reject', 'uploads-failed', 'disconnect-before-reply', 'disconnect-during-wait', 'bad-key']
 # failure steps behind which a recorded defect may sit: gate name per step
 FAIL_GATES = {'reject': 'listen-failure-reject', 'uploads-failed': 'listen-failure-uploads-failed',
               'disconnect-before-reply': 'listen-failure-disconnect'}
@@ -1908,7 +1908,7 @@ class C14Run(OnionRun):
 # C17
 # ---------------------------------------------------------------------------
 
-MUST_FAIL = ('config', 'bind', 'reject', 'uploads-failed', 'disconnect-before-reply', 'disconnect-during-wait')
+MUST_FAIL = ('config', 'bind', 'reject', 'uploads-failed', 'disconnect-before-reply', 'disconnect-during-wait', 'bad-key')
 
 
 class C17Run(OnionRun):
@@ -1955,6 +1955,9 @@ class C17Run(OnionRun):
         c = self.c = self.draw_config()
         sim.c17_valid = c['valid']
         if self.step_name in FAIL_GATES and not sim.gate(FAIL_GATES[self.step_name]):
+            sim.log('skipped', self.step_name)
+            return
+        if self.step_name == 'bad-key' and not (c['kind'] == 'eph' and c['key'] in ('bare', 'prefixed') and c['form'] != 'string'):
             sim.log('skipped', self.step_name)
             return
         if not c['valid']:
@@ -2123,6 +2126,11 @@ class C17Run(OnionRun):
             return None
         if c['key'] == 'discard':
             return DISCARD
+        if self.step_name == 'bad-key':
+            # a key as read from a file, with the line break still on it: the creation is refused by the library itself
+            # (a ValueError, raised once the local listener is bound) - a failed creation like any other
+            self.sim.fault('key-blob-ends-in-a-line-break')
+            blob = blob + '\n'
         if c['key'] == 'bare':
             return blob
         return prefix + blob
@@ -2455,6 +2463,9 @@ class C17Run(OnionRun):
         elif step.startswith('disconnect'):
             if f.type.__name__ != 'TorDisconnectError':
                 expected = 'TorDisconnectError'
+        elif step == 'bad-key':
+            if f.type.__name__ != 'ValueError':
+                expected = 'ValueError'
         if expected is not None:
             self.fail('C17.wrong-error-' + step, 'listen() failed with %s, expected %s (%s)' % (err_s, expected, what))
         if sim.reactor.ports:
